@@ -43,7 +43,7 @@ pub fn n_runs(m: Mode, tier: &str) -> u64 {
 pub fn gen(m: Mode, tier: &str, seed: u64, idx: u64, base: u64) -> Spec {
     let _ = tier;
     let mut rng = Rng::new(seed);
-    let world = if rng.coin(12) { wgen::gen_zoo(&mut rng) } else { pick_world(&mut rng, base, idx, 55, wgen::Profile::Any) };
+    let world = if rng.coin(if m == Mode::C28 { 30 } else { 12 }) { wgen::gen_zoo(&mut rng) } else { pick_world(&mut rng, base, idx, 55, wgen::Profile::Any) };
     let goals = usable_goals(&world, &["slg", "rec"]);
     let slots = vec![SlotCfg::slg(), SlotCfg::rec()];
     let mut db = DbCfg::default();
